@@ -95,6 +95,15 @@ type kMyHC plush.HelperContext
 
 type kEmbHC struct{ plush.HelperContext }
 
+// plain data that promotes String() / HTML() from an embedded member that is nil
+type kEmbTime struct{ *time.Time }
+type kEmbStringer struct{ fmt.Stringer }
+type kEmbHTMLer struct{ plush.HTMLer }
+type kEmbDur struct {
+	*time.Duration
+	Name string
+}
+
 type kBigHC interface {
 	hctx.HelperContext
 	Extra()
@@ -261,6 +270,14 @@ func kindValue(kind string) (interface{}, bool) {
 		return kOuterPtr{Name: "o"}, true
 	case "struct_promotes_nil_iface":
 		return kOuterIface{Name: "o"}, true
+	case "struct_embeds_nil_time":
+		return kEmbTime{}, true
+	case "struct_embeds_nil_stringer":
+		return kEmbStringer{}, true
+	case "struct_embeds_nil_htmler":
+		return kEmbHTMLer{}, true
+	case "ptr_struct_embeds_nil_duration":
+		return &kEmbDur{Name: "d"}, true
 	case "func_array3":
 		return func(a [3]int) string { return fmt.Sprint(a) }, true
 	case "func_myhc":
